@@ -197,6 +197,24 @@ def gen_cases(prop, u, seed, tier, probe=None):
                     for w in sorted(set([0, 1, 2, 3, nv - 1, nv, nv + 1, 255, 256, 2**32, 2**32 + 1, 2**63, 2**64 - 1])):
                         if w < nv: continue
                         case(i, 0, 'setw:%d:8:%d' % (r['offset'], w), v, 'tag-word', nv=nv, tag=w, off=r['offset'], last=(r['offset'] + 8 == len(ps[0]) // 2))
+    elif prop == 'C16':
+        for k, t in enumerate(u.slice_elems):
+            cs.add('stype %d %s' % (k, t.term()), kind='stype', ti=None)
+        from universe import Seq
+        for k, t in enumerate(u.slice_elems):
+            vt = Seq('vec', t)
+            vals = ['[]'] + values_for(vt, rng, 6 if quick else 20)
+            for v in dict.fromkeys(vals):
+                cs.add('ser3 %d %s' % (k, v), kind='ser3', sk=k, val=v, family='ser3-zero' if t.is_zc() else 'ser3-deep')
+            if t.is_zc():
+                for n in range(0, 7):
+                    items = '[' + ''.join(t.gen(rng, 2) + ',' for _ in range(n)) + ']'
+                    for a in range(0, 7):
+                        cs.add('iter %d %s %d' % (k, items, a), kind='iter', sk=k, val=items, n=n, a=a, family='iter-small')
+                for _ in range(4 if quick else 30):
+                    n = rng.choice([9, 17, 40, 100]); a = rng.choice([0, n - 1, n + 1, 2 * n, 2**32, 2**63, 2**64 - 1, n])
+                    items = '[' + ''.join(t.gen(rng, 2) + ',' for _ in range(n)) + ']'
+                    cs.add('iter %d %s %d' % (k, items, a), kind='iter', sk=k, val=items, n=n, a=a, family='iter-large')
     elif prop == 'C19':
         import itertools
         def rb(n): return bytes(rng.randrange(256) for _ in range(n)).hex()
